@@ -267,6 +267,20 @@ def histories(maxlen):
     return out
 
 
+# Policy "narrow": the method is outside Retry.allowed_methods (the library default for POST/PATCH/
+# unknown methods, a caller's short list for the others).  Such a request is not *retried* after a 503
+# or after a reset that followed the complete request, but it is still sent again after a failed dial
+# and after every redirect — the histories of this family use only those steps, so the attempts
+# planned by the oracle are the same as under allowed_methods=None.
+NARROW_STEPS = ("connect-error", "307", "308", "303", "301")
+
+
+def policy_hists(hists, policy):
+    if policy == "all":
+        return hists
+    return [h for h in hists if h and all(st in NARROW_STEPS for st in h)]
+
+
 # ------------------------------------------------------------------ scripted server
 class Script(Server):
     def __init__(self, steps, xhost=False):
@@ -324,8 +338,15 @@ def execute(case, tmpdir):
         headers["Content-Length"] = str(len(ref or b""))
     elif hdr == "te":
         headers["Transfer-Encoding"] = "chunked"
+    policy = case.get("policy", "all")
+    if policy == "all":
+        allowed = None
+    elif method in Retry.DEFAULT_ALLOWED_METHODS:
+        allowed = ["TRACE"]  # a caller's narrow list that leaves this method out
+    else:
+        allowed = Retry.DEFAULT_ALLOWED_METHODS  # the library default leaves POST / PATCH / unknown methods out
     retries = Retry(total=9, connect=9, read=9, redirect=9, status=9, other=9, status_forcelist=[503],
-                    allowed_methods=None, backoff_factor=0)
+                    allowed_methods=allowed, backoff_factor=0)
     srv = Script(hist, xhost=(driver == "manager-xhost"))
     net = Net(srv)
     holder = None
@@ -393,6 +414,8 @@ def check(case, obs, ref):
     kind, method, chunked, hdr, driver = case["kind"], case["method"], case["chunked"], case["hdr"], case["driver"]
     steps = list(case["hist"]) + ["ok"]
     base = {"body": kind, "driver": driver}
+    if case.get("policy", "all") != "all":
+        base["policy"] = case["policy"]
     either = 0
     wire = obs["wire"]
 
@@ -597,15 +620,19 @@ def _worker(task):
     hists = _CFG["hists"][driver]
     seen = set()
     with tempfile.TemporaryDirectory(prefix="c11_") as tmpdir:
-        for chunked in (False, True):
-            for hdr in HDRS:
-                for hist in hists:
-                    case = {"driver": driver, "kind": kind, "size": size, "offset": offset, "method": method,
-                            "chunked": chunked, "hdr": hdr, "hist": list(hist)}
-                    obs, V, label = run_case(case, tmpdir, acc, seen)
-                    if size == BS + 1 and len(hist) == 2 and hist[0] == "307" and not chunked and hdr == "none":
-                        acc.sample({"case": case, "outcome": label,
-                                    "wire": [(w["method"], w["framing"], w["chunks"], w["body"]) for w in obs["wire"]]}, cap=1)
+        for policy in ("all", "narrow"):
+            for chunked in (False, True):
+                for hdr in (HDRS if policy == "all" else _CFG["narrow_hdrs"]):
+                    for hist in policy_hists(hists, policy):
+                        case = {"driver": driver, "kind": kind, "size": size, "offset": offset, "method": method,
+                                "chunked": chunked, "hdr": hdr, "hist": list(hist)}
+                        if policy != "all":
+                            case["policy"] = policy
+                            acc.counters["narrow_policy_cases"] += 1
+                        obs, V, label = run_case(case, tmpdir, acc, seen)
+                        if size == BS + 1 and len(hist) == 2 and hist[0] == "307" and not chunked and hdr == "none":
+                            acc.sample({"case": case, "outcome": label,
+                                        "wire": [(w["method"], w["framing"], w["chunks"], w["body"]) for w in obs["wire"]]}, cap=1)
     acc.counters["kind_" + kind] += 1
     acc.counters["method_" + method] += 1
     return acc
@@ -620,10 +647,12 @@ def run(ctx):
         bounds = {"pool": 2, "manager": 2}
         methods = METHODS_QUICK
     _CFG["hists"] = {d: histories(n) for d, n in bounds.items()}
+    _CFG["narrow_hdrs"] = HDRS if ctx.thorough else ["none"]
     specs = body_specs(ctx.thorough)
     tasks = [(d, k, s, o, m) for d in bounds for (k, s, o) in specs for m in methods]
     acc = ctx.gather(_worker, tasks, chunksize=1)
-    expected_n = sum(2 * len(HDRS) * len(_CFG["hists"][t[0]]) for t in tasks)
+    expected_n = sum(2 * len(HDRS) * len(_CFG["hists"][t[0]]) +
+                     2 * len(_CFG["narrow_hdrs"]) * len(policy_hists(_CFG["hists"][t[0]], "narrow")) for t in tasks)
     oc = acc.outcomes
     cov = {
         "distinct_nontrivial": len(acc.distinct),
